@@ -12,6 +12,7 @@ let equity_f32 (w, n) = if n = 0 then 0.5 else r32 (float_of_int w /. float_of_i
 let bucket_index p = int_of_float (Float.round (r32 (p *. 100.0)))
 let bucket_code ix = match abs_make (n_of_int 3) (n_of_int ix) with Some a -> a.abits | None -> BinNums.N0
 
+let sample_every = 4
 let () =
   register "eq" (fun i o ->
     if o.(0) = "P" then [Specfail ("c07_equity_aborts", "")] else begin
@@ -19,15 +20,26 @@ let () =
     let ob = { pocket = n_of_string i.(1); public = n_of_string i.(2) } in
     let fails = ref [] in
     let spec rule cond detail = if not cond then fails := Specfail (rule, detail) :: !fails in
+    let disagree = ref false in
     (match Equity.equity_counts d ob with
-     | None -> fails := Mismatch "model cannot evaluate" :: !fails
+     | None -> fails := Mismatch "model cannot evaluate" :: !fails; disagree := true
      | Some (w, n) ->
        let w = int_of_n w and n = int_of_n n in
        let p = equity_f32 (w, n) in
-       if bits32 p <> o.(0) then fails := Mismatch (Printf.sprintf "equity %d/%d = %s" w n (bits32 p)) :: !fails;
-       if string_of_n (bucket_code (bucket_index p)) <> o.(1) then fails := Mismatch (Printf.sprintf "bucket %d" (bucket_index p)) :: !fails;
+       if bits32 p <> o.(0) then (disagree := true; fails := Mismatch (Printf.sprintf "equity %d/%d = %s" w n (bits32 p)) :: !fails);
+       if string_of_n (bucket_code (bucket_index p)) <> o.(1) then (disagree := true; fails := Mismatch (Printf.sprintf "bucket %d" (bucket_index p)) :: !fails);
        (* the definition: wins / (wins + losses) over all C(45,2) holdings, one half when all tie *)
        spec "c07_counts_in_range" (0 <= w && w <= n && n <= 990) (Printf.sprintf "%d/%d" w n));
+    (* the property's own definition, from the rule book alone (SpecEquity.spec_counts): evaluated where model and
+       implementation disagree (the search for a failing input) and on a sample of the other cases *)
+    if !disagree || Hashtbl.hash (i.(1), i.(2)) mod sample_every = 0 then begin
+      let (w, n) = SpecEquity.spec_counts d ob in
+      let w = int_of_n w and n = int_of_n n in
+      let p = equity_f32 (w, n) in
+      spec "c07_equity_is_wins_over_decided" (bits32 p = o.(0))
+        (Printf.sprintf "hero beats %d of the %d holdings he does not tie with: equity %g, the implementation says %g" w n p (Floatq.float_of_f32bits (int_of_string o.(0))));
+      spec "c07_bucket_is_rounded_percent" (string_of_n (bucket_code (bucket_index p)) = o.(1)) (Printf.sprintf "bucket %d expected" (bucket_index p))
+    end;
     let e = Floatq.float_of_f32bits (int_of_string o.(0)) in
     spec "c07_equity_in_unit_interval" (e >= 0.0 && e <= 1.0) o.(0);
     Stdlib.List.iteri (fun k s ->
@@ -43,12 +55,18 @@ let () =
     let ob = { pocket = n_of_string i.(1); public = n_of_string i.(2) } in
     let fails = ref [] in
     let bucket_of (w, n) = bucket_code (bucket_index (equity_f32 (int_of_n w, int_of_n n))) in
+    let show h =
+      let total = Stdlib.List.fold_left (fun a (_, c) -> a + int_of_n c) 0 h in
+      Printf.sprintf "%d/%s" total (String.concat "+" (Stdlib.List.map (fun (k, c) -> string_of_n k ^ ":" ^ string_of_n c) h)) in
+    let disagree = ref false in
     (match Equity.turn_histogram bucket_of d ob with
-     | None -> fails := Mismatch "model cannot evaluate" :: !fails
-     | Some h ->
-       let total = Stdlib.List.fold_left (fun a (_, c) -> a + int_of_n c) 0 h in
-       let m = Printf.sprintf "%d/%s" total (String.concat "+" (Stdlib.List.map (fun (k, c) -> string_of_n k ^ ":" ^ string_of_n c) h)) in
-       if m <> o.(0) then fails := Mismatch ("histogram " ^ m) :: !fails);
+     | None -> fails := Mismatch "model cannot evaluate" :: !fails; disagree := true
+     | Some h -> if show h <> o.(0) then (disagree := true; fails := Mismatch ("histogram " ^ show h) :: !fails));
+    (* the definition: the count list of the buckets of the river successors, each from the rule book alone *)
+    if !disagree || Hashtbl.hash (i.(1), i.(2)) mod sample_every = 0 then begin
+      let h = SpecEquity.hist_of (Stdlib.List.map (fun o' -> bucket_of (SpecEquity.spec_counts d o')) (SpecEquity.river_successors d ob)) in
+      if show h <> o.(0) then fails := Specfail ("c07_histogram_counts_river_buckets", "expected " ^ show h) :: !fails
+    end;
     Stdlib.List.iteri (fun k s ->
       if s <> o.(0) then fails := Specfail ("c07_histogram_ignores_suits", Printf.sprintf "permutation %d" (5 * k)) :: !fails) (split ',' o.(1));
     !fails end)
